@@ -527,6 +527,13 @@ fn big(a: &Args) {
         .map(|(ci, (kind, m, n))| {
             let mut rng = rng_from(seed, 606 + ci as u64);
             let is_pmh = kind.starts_with("pmh");
+            // sketchers built through `Default` have the size the crate gives them (4096 as documented today)
+            let m_real: usize = if kind.starts_with("ss_def") {
+                catch(|| make(&Cfg { kind: kind.to_string(), m: *m, ss: None }).regs().len()).unwrap_or(*m)
+            } else {
+                *m
+            };
+            let m = &m_real;
             let cfg = Cfg {
                 kind: kind.to_string(),
                 m: *m,
